@@ -45,6 +45,7 @@ type Set struct {
 	bgTarget              string // image the current BatchRelease was created for
 	c11StaleReady         int
 	brCreatedSinceRelease bool
+	brAtExit              string // state of the BatchRelease when the user's last exit action was written: none | deleting | live
 
 	st01 c01state
 	st02 c02state
@@ -222,6 +223,26 @@ func (s *Set) onWrite(w *simapi.Write, v *simapi.View) {
 	}
 	if w.Actor == "user" && w.Key == s.S.WorkloadKey() && w.Before != nil && w.After != nil && workloadImage(w.Before) != workloadImage(w.After) {
 		s.brCreatedSinceRelease = false
+	}
+	if w.Actor == "user" {
+		isExit := false
+		switch {
+		case w.Key.Kind == "Rollout" && w.Before != nil && w.After != nil && !simapi.Deleting(w.Before) && simapi.Deleting(w.After):
+			isExit = true
+		case w.Key.Kind == "Rollout" && w.Before != nil && w.After != nil && !simapi.Bool(w.Before, "spec.disabled") && simapi.Bool(w.After, "spec.disabled"):
+			isExit = true
+		case w.Key == s.S.WorkloadKey() && w.Before != nil && w.After != nil && workloadImage(w.Before) != workloadImage(w.After) && workloadImage(w.After) == s.stableImg:
+			isExit = true
+		}
+		if isExit {
+			s.brAtExit = "none"
+			if br := v.GetKey(simapi.Key{Group: "rollouts.kruise.io", Kind: "BatchRelease", NS: s.ns, Name: s.S.RolloutName()}); br != nil {
+				s.brAtExit = "live"
+				if simapi.Deleting(br) {
+					s.brAtExit = "deleting"
+				}
+			}
+		}
 	}
 	s.count("writes_seen", 1)
 	if w.Key.Kind != "Pod" {
